@@ -254,19 +254,15 @@ class FSA:
                 self._out_dict[tail][head] = []
                 self._in_dict[head][tail] = []
 
-            if ignore_redundant and label in self._out_dict[tail][head]:
-                continue
+            labels = list(label) if elist else [label]
 
-            if elist:
-                self._out_dict[tail][head] += label
-                self._in_dict[head][tail] += label
-                for l in label:
-                    self._graph_dict[tail][l] = head
+            for l in labels:
+                if ignore_redundant and l in self._out_dict[tail][head]:
+                    continue
 
-            else:
-                self._out_dict[tail][head].append(label)
-                self._in_dict[head][tail].append(label)
-                self._graph_dict[tail][label] = head
+                self._out_dict[tail][head].append(l)
+                self._in_dict[head][tail].append(l)
+                self._graph_dict[tail][l] = head
 
     def delete_vertices(self, vertices):
         """Delete several vertices from the FSA.
